@@ -210,6 +210,9 @@ pub struct Live<const N: usize> {
     pub added: u64,
     pub popped: u64,
     pub hostile: bool,
+    /// the case ends after the current step (an accepted submission with an empty buffer: the
+    /// reference device, like QEMU, refuses zero-length descriptors, so nothing is fetched after it)
+    pub stop: bool,
 }
 
 fn err_str(e: Error) -> String {
@@ -228,7 +231,7 @@ impl<const N: usize> Live<N> {
         let dev = RefQueue::new(N as u16, reg.desc, reg.driver, reg.device, indirect);
         hal::take_events();
         STORE.with(|s| *s.borrow_mut() = Some(StoreCtx::new(N, reg.desc, reg.driver, dev.clone())));
-        Ok(Live { q, t, dev, bufs: vec![], held: BTreeMap::new(), indirect, event_idx, ap, dev_written: HashMap::new(), old_idx: 0, added: 0, popped: 0, hostile: false })
+        Ok(Live { q, t, dev, bufs: vec![], held: BTreeMap::new(), indirect, event_idx, ap, dev_written: HashMap::new(), old_idx: 0, added: 0, popped: 0, hostile: false, stop: false })
     }
 
     pub fn sync_dev_to_store(&self) {
@@ -299,6 +302,8 @@ impl<const N: usize> Live<N> {
         let outs: Vec<usize> = out_lens.iter().map(|l| self.new_buf(*l, 0xEE)).collect();
         let fmt = |v: &Vec<usize>, b: &Vec<Vec<u8>>| if v.is_empty() { "-".to_string() } else { v.iter().map(|i| format!("{}:{}", i, b[*i].len())).collect::<Vec<_>>().join(",") };
         let op = format!("queue add in={} out={}{}", fmt(&ins, &self.bufs), fmt(&outs, &self.bufs), if self.hostile { " nost=1" } else { "" });
+        let has_empty_buf = in_lens.iter().chain(out_lens.iter()).any(|l| *l == 0);
+        hal::with(|h| h.allow_empty = has_empty_buf);
         let st_before = self.q.verif_state();
         let (_, _, avail_before, _) = st_before;
         let free_before = self.q.available_desc();
@@ -315,6 +320,7 @@ impl<const N: usize> Live<N> {
                 (r, ins, outs)
             })
         };
+        hal::with(|h| h.allow_empty = false);
         let (evs, halev) = self.take_evs();
         let mut tok = None;
         let res = match r {
@@ -352,6 +358,9 @@ impl<const N: usize> Live<N> {
                 if !self.indirect && k > free_before {
                     c.fail(format!("[C03] add of {} buffers accepted with only {} free descriptors", k, free_before));
                 }
+                if k > N {
+                    c.fail(format!("[C03] add of {} buffers accepted on a queue of {} entries (a chain, indirect or not, may not be longer than the queue)", k, N));
+                }
                 self.added += 1;
                 tok = Some(t);
                 // C04: exactly one share per buffer, in order, right name/len/direction, never Both
@@ -376,8 +385,12 @@ impl<const N: usize> Live<N> {
                 }
                 // C01: the device parses the new entry and finds exactly these segments
                 let slot = avail_before % N as u16;
+                if has_empty_buf {
+                    // accepted with a zero-length element (only `add_indirect` does that): not fetched
+                    self.stop = true;
+                }
                 match (self.dev.avail_ring(slot), self.dev.avail_idx()) {
-                    _ if self.hostile => {}
+                    _ if self.hostile || has_empty_buf => {}
                     (Ok(h), Ok(idx)) => {
                         if h != t {
                             c.fail(format!("[C01] ring slot {} holds {} but add returned token {}", slot, h, t));
@@ -428,6 +441,39 @@ impl<const N: usize> Live<N> {
         }
         self.drain_store_oracle(c);
         tok
+    }
+
+    /// A buffer of 4 GiB + 16 bytes: its length does not fit the 32-bit `len` of a descriptor.  The
+    /// submission must be refused (the code panics in `set_buf`), never published with a truncated length.
+    /// The case ends here.
+    pub fn add_huge(&mut self, c: &mut Case) {
+        let small = vec![1u8; 8];
+        // zero pages are mapped lazily: the memory is never touched
+        let mut huge = vec![0u8; (1usize << 32) + 16];
+        let huge_len = huge.len();
+        let huge_ptr = huge.as_mut_ptr();
+        hal::with(|h| h.allow_huge = true);
+        let r = {
+            let q = &mut self.q;
+            guarded(|| {
+                // SAFETY: `huge` lives until the end of this function and is not otherwise used.
+                let mut big: &mut [u8] = unsafe { std::slice::from_raw_parts_mut(huge_ptr, huge_len) };
+                let r = unsafe { q.add(&[&small], &mut [&mut big]) };
+                r.is_ok()
+            })
+        };
+        hal::with(|h| h.allow_huge = false);
+        let _ = self.take_evs();
+        match r {
+            Ok(true) => {
+                c.fail(format!("[C01] a device-writable buffer of {} bytes was accepted and published: a descriptor's 32-bit length cannot describe it", huge_len));
+                c.step("queue add_huge", "accepted");
+            }
+            Ok(false) => c.step("queue add_huge", "refused"),
+            Err(_) => c.step("queue add_huge", "panic"),
+        }
+        let _ = hal::with(|h| std::mem::take(&mut h.violations));
+        drop(huge);
     }
 
     /// device: fetch everything available (validating), remember in-flight chains
@@ -707,8 +753,10 @@ pub fn structured<const N: usize>(cfg: QCfg, id: String, mut rng: Rng) -> Case {
         soak(&mut l, &mut c, k as usize);
         c.tag("soak");
     }
+    // one case in 8 may contain a submission with an empty buffer (which ends the case by a panic)
+    let allow_empty = rng.chance(1, 8);
     for _ in 0..cfg.steps {
-        if c.steps.last().map(|(_, o)| o.starts_with("panic")).unwrap_or(false) {
+        if l.stop || c.steps.last().map(|(_, o)| o.starts_with("panic")).unwrap_or(false) {
             break;
         }
         let free = l.q.available_desc();
@@ -728,9 +776,9 @@ pub fn structured<const N: usize>(cfg: QCfg, id: String, mut rng: Rng) -> Case {
             // very large queues: chains of thousands of buffers make the per-store re-validation quadratic;
             // long chains are exercised on the sizes up to 1024
             let k = if N >= 4096 && k > 64 { if k > free { free + 1 } else { 1 + k % 64 } } else { k };
-            let (i, o) = gen_lens_maybe_empty(&mut rng, k, !(cfg.indirect && k > 1));
+            let (i, o) = gen_lens_maybe_empty(&mut rng, k, allow_empty);
             l.add(&mut c, &i, &o, &mut rng);
-            if c.steps.last().map(|(_, o)| o.starts_with("panic")).unwrap_or(false) {
+            if l.stop || c.steps.last().map(|(_, o)| o.starts_with("panic")).unwrap_or(false) {
                 break;
             }
             if rng.chance(1, 2) {
@@ -791,9 +839,14 @@ pub fn structured<const N: usize>(cfg: QCfg, id: String, mut rng: Rng) -> Case {
         }
         l.check_counts(&mut c);
     }
+    // one case in 40 ends with a submission whose buffer is longer than a descriptor can describe
+    let already_dead = l.stop || c.steps.last().map(|(_, o)| o.starts_with("panic")).unwrap_or(false);
+    if !already_dead && N >= 2 && rng.chance(1, 40) && l.q.available_desc() >= 2 {
+        l.add_huge(&mut c);
+    }
     // drain: everything outstanding is completed and consumed; the ledger must balance
     // (not after a panicking call: the queue was abandoned part-way and the case ends there)
-    let dead = c.steps.last().map(|(_, o)| o.starts_with("panic")).unwrap_or(false);
+    let dead = l.stop || c.steps.last().map(|(_, o)| o.starts_with("panic") || o == "accepted" || o == "refused").unwrap_or(false);
     if !dead {
         l.dev_fetch(&mut c);
         while !l.dev.inflight.is_empty() {
